@@ -93,7 +93,7 @@ PROPS = {
     },
     'C07': {
         'level': 'proof',
-        'verus': [{'group': 'c07_transactions'}],
+        'verus': [{'group': 'c07_transactions'}, {'group': 'srv_exec'}, {'group': 'srv_frame'}],
         'tables': [{'name': 'should_queue_command', 'file': 'src/storage/commands/transactions.rs', 'fn': 'should_queue_command',
                     'extra_names': ['MULTI', 'EXEC', 'DISCARD', 'WATCH', 'UNWATCH'],
                     'expect_true': lambda names: set(names) - {'MULTI', 'EXEC', 'DISCARD', 'WATCH', 'UNWATCH'},
@@ -102,7 +102,7 @@ PROPS = {
     },
     'C08': {
         'level': 'proof',
-        'verus': [{'group': 'shard_core'}, _sg('shard_strings'), _sg('shard_lists'), _sg('shard_sweeper'), _sg('shard_sets'), _sg('shard_hashes'), _sg('shard_zsets')],
+        'verus': [{'group': 'shard_core'}, _sg('shard_strings'), _sg('shard_lists'), _sg('shard_sweeper'), _sg('shard_sets'), _sg('shard_hashes'), _sg('shard_zsets'), {'group': 'srv_exec'}],
         'explanation': 'every shard mutator under contract marks the key it changes and no other (step_ok)',
     },
     'C09': {
@@ -121,7 +121,7 @@ PROPS = {
     },
     'C11': {
         'level': 'proof',
-        'verus': [{'group': 'c11_aof'}],
+        'verus': [{'group': 'c11_aof'}, {'group': 'srv_frame'}],
         'tables': [{'name': 'is_write_command', 'file': 'src/network/server.rs', 'fn': 'Server::is_write_command',
                     'expect_true': lambda names: set(names) & _t.write_catalogue(),
                     'why': 'a dispatched command is appended to the AOF iff it is a Redis write command (spec/write_catalogue.txt)'}],
@@ -137,6 +137,11 @@ PROPS = {
         'verus': [{'group': 'shard_zsets', 'units': ['xdel', 'xtrim']}],
         'kani': STREAM_KANI,
         'explanation': 'ID generation (complete Kani proof over full u64 domains), ID packing/order (complete); explicit-ID admission and XREAD range_after (bounded stand-ins, not counted)',
+    },
+    'C17': {
+        'level': 'proof',
+        'verus': [{'group': 'srv_frame'}, {'group': 'srv_conn'}, {'group': 'srv_auth'}],
+        'explanation': 'the password gate: process_frame (whole function) refuses every command but AUTH/PING/QUIT from a connection that has not authenticated, without running any handler or touching any connection entry; the frame loop of process_connection hands such a frame to process_frame only (no replication handshake); handle_auth authenticates exactly on the configured password and only the issuing connection',
     },
     'C19': {
         'level': 'proof',
